@@ -863,7 +863,18 @@ pub fn daemonize() -> Result<()> {
     match env::var("SCCACHE_NO_DAEMON") {
         Ok(ref val) if val == "1" => {}
         _ => {
-            Daemonize::new().start().context("failed to daemonize")?;
+            // Keep the umask of the process that starts the server: `Daemonize` would
+            // otherwise switch to 0o027, and every file the compilers create on behalf
+            // of the clients would lose its "other" permission bits.
+            let umask = unsafe {
+                let mask = libc::umask(0o022);
+                libc::umask(mask);
+                mask
+            };
+            Daemonize::new()
+                .umask(umask as u32)
+                .start()
+                .context("failed to daemonize")?;
         }
     }
 
